@@ -9,9 +9,10 @@ from pathlib import Path
 
 KIND_ANNOTATION = {
     'dict': 'dict', 'list': 'list', 'str': 'str', 'int': 'int', 'numpy': '_np.ndarray', 'frame': '_pd.DataFrame',
-    'generator': '_Gen', 'lazy': '_Gen', 'gen_empty': '_Gen', 'list_numpy': 'list', 'dir': '_tc.DirData', 'memory': '_objs.MemValue',
+    'generator': '_Gen', 'lazy': '_Gen', 'gen_empty': '_Gen', 'mock': 'object', 'list_numpy': 'list', 'dir': '_tc.DirData', 'memory': '_objs.MemValue',
 }
-KIND_DATA_CLASS = {'lazy': '_tcd.GeneratedDataLazy', 'list_numpy': '_tcd.ListOfNumpyData'}
+KIND_DATA_CLASS = {'lazy': '_tcd.GeneratedDataLazy', 'list_numpy': '_tcd.ListOfNumpyData',
+                   'mock': '_tc.InMemoryData'}
 
 
 def pkg_name(program):
@@ -95,6 +96,22 @@ class Oc(_APO):
         return ['Oc', sorted(self.tags)]
 
 
+class Od(_PO, _tc.chain.ChainObject):
+    """A parameter object that looks at the chain it is used in (C19)."""
+    def __init__(self, tag):
+        self.tag = tag
+        self.seen = None
+
+    def init_chain(self, chain):
+        self.seen = sorted(chain.tasks)
+
+    def repr(self):
+        return 'Od(' + _sr(self.tag) + ')'
+
+    def tcv_canon(self):
+        return ['Od', _c(self.tag), self.seen]
+
+
 class MemValue(_tc.InMemoryData):
     pass
 
@@ -173,7 +190,12 @@ def module_source(program, mi):
         pnames = [p['name'] for p in t['params']]
         if t['style'] == 'args':
             shorts = [input_short(program, i) for i in dins]
-            sig = ', '.join(['self'] + pnames + shorts)
+            # the order of run arguments is free (bound by name): a generated permutation of parameters and inputs
+            sig_names = pnames + shorts
+            perm = t.get('sig_perm')
+            if perm and sorted(perm) == list(range(len(sig_names))):
+                sig_names = [sig_names[k] for k in perm]
+            sig = ', '.join(['self'] + sig_names)
             lines.append(f'    def run({sig}) -> {ann}:')
             pd = '{' + ', '.join(f'{n!r}: {n}' for n in pnames) + '}'
             lines.append(f'        return _rt.compute(self, {pd}, _rt.gather_args(self, [{", ".join(shorts)}]))')
